@@ -268,7 +268,7 @@ class ScriptedImpl:
             elif input is not None and m["kind"] == "exchange":
                 data = _transform(input.batch, m["out_cols"], pos)
             else:
-                data = make_rows(state.mname, pos, st.get("rows", 1), m["out_cols"], st.get("pad", 0))
+                data = make_rows(state.mname, pos, st.get("rows", 1), m["out_cols"], st.get("pad", 0), bool(st.get("rnd")))
             if data is not None:
                 batch = pa.RecordBatch.from_pydict(data, schema=out.output_schema)
             out.emit(batch, metadata=st.get("meta"))
@@ -294,10 +294,14 @@ def _auth_of(ctx: CallContext | None) -> str:
     return f"{a.domain}|{a.principal}"
 
 
-def make_rows(mname: str, pos: int, rows: int, cols: list[str], pad: int = 0) -> dict[str, list[Any]]:
+def make_rows(mname: str, pos: int, rows: int, cols: list[str], pad: int = 0, rnd: bool = False) -> dict[str, list[Any]]:
+    """Deterministic rows; ``rnd`` fills the padding of binary columns with seeded pseudo-random (incompressible) bytes."""
     data: dict[str, list[Any]] = {}
     for c in cols:
         k = c[0]
+        if k == "b" and rnd:
+            data[c] = [bytes([pos % 256, r % 256]) + random.Random(f"{mname}:{pos}:{r}").randbytes(pad) for r in range(rows)]
+            continue
         if k == "i":
             data[c] = [pos * 1000 + r for r in range(rows)]
         elif k == "s":
